@@ -13,6 +13,7 @@ EXPLANATION = ('Ordering core of C12 decided on MIR of every path: sync-before-h
                'confinement, enact_plan reachable only from DbInner::enact_logs through Log::read_next, column flush loop '
                'dominating every Log::clean_logs call (with sync_data assumed true), truncation made durable, remap flush, '
                'confinement of truncation/unlink primitives, msync range.')
+EXPLANATION += ' Added: the flush visits queued old tables; a replayed log is synced first; the truncate count is read before the flush; a torn appended record is never handed to the applier; a failed truncation requeues the logs not cleaned and destroys no handle.'
 ASSUMPTIONS = ['sync_wal = sync_data = true (CFG pruned on Log.sync / Options.sync_data)',
                'kernel honours fdatasync/msync; page-subset recovery content is not decided',
                'MIR paths over-approximate feasible paths; unwind edges are ignored']
